@@ -86,7 +86,7 @@ def gen_cases(ctx):
         cases += [l.strip() for l in open(corpus) if l.strip() and not l.startswith("#")]
     ncorpus = len(cases)
     quick = ctx.tier == "quick"
-    seqs = list(choice_seqs(5 if quick else 7))
+    seqs = list(choice_seqs(6 if quick else 8))
     for n in range(1, 5):
         for ps in forests(n):
             fs = files_of(ps, ctx.rng)
@@ -97,7 +97,7 @@ def gen_cases(ctx):
                     ctx.count("forced n=%d" % n)
     nexh = len(cases) - ncorpus
     # larger forests, three workers, longer choice lists (candidates can be 3 wide)
-    for _ in range(300 if quick else 6000):
+    for _ in range(300 if quick else 20000):
         n = 5 + ctx.rng.below(2)
         fs = files_of(random_forest(n, ctx.rng), ctx.rng, missing=True)
         chunk = 1 + ctx.rng.below(n)
@@ -106,7 +106,7 @@ def gen_cases(ctx):
         cases.append("tree %s %d %d c%s -" % (fs, chunk, w, ".".join(map(str, ch))))
         ctx.count("forced-random n=%d" % n)
     # free-running stress: the production pool size, chunk size 1
-    for _ in range(400 if quick else 8000):
+    for _ in range(400 if quick else 30000):
         n = 3 + ctx.rng.below(4)
         fs = files_of(random_forest(n, ctx.rng), ctx.rng)
         cases.append("tree %s %d 7 free -" % (fs, 1 + ctx.rng.below(2)))
@@ -230,7 +230,7 @@ def run(ctx):
 
 
 RULE = ("cases = corpus + every forest on 1..4 classes (random member sets and letter case of parent references) x chunk size 1..n x every "
-        "binary choice list up to length 5 (quick) / 7 (thorough) for the serialised 2-worker scheduler, each under a random requested enumeration order; "
+        "binary choice list up to length 6 (quick) / 8 (thorough) for the serialised 2-worker scheduler, each under a random requested enumeration order; "
         "+ random forests on 5..6 classes (some with a missing parent) with 2..3 workers; + free-running builds with 7 workers. Every case: real "
         "build_tree_parallel, then prepare/supertypes/subtypes for every class and every declared member. "
         "distinct_nontrivial = distinct implementation answers among cases with at least two chunks")
